@@ -17,6 +17,7 @@ from __future__ import annotations
 import ast
 
 from ..astutil import AnalysisError, dotted, src, walk_local, walk_ordered, calls_in
+from .. import pattern as P
 from ..rules import castmatrix as cm
 
 U = "cohdl/_core/_unsigned.py"
@@ -83,7 +84,7 @@ def rule_front(run):
         ok = bool(node.orelse) and isinstance(node.orelse[-1], ast.Raise)
         run.ob(ok, f"{own}._assign", file=rel, line=node.lineno, detail="fail-closed", expected="unknown source kinds raise", found="raise" if ok else "falls through")
         # width-preserving ints: Integer is converted to int first
-        ok = any(isinstance(s, ast.If) and "isinstance(" in src(s.test) and "Integer" in src(s.test) for s in f.node.body[:2])
+        ok = any(isinstance(s, ast.If) and "isinstance(" in P.T(s.test) and "Integer" in P.T(s.test) for s in f.node.body[:2])
         run.ob(ok, f"{own}._assign", file=rel, line=f.node.lineno, detail="Integer-normalised", expected="Integer operands are converted to int before the range check", found="ok" if ok else "changed")
     # BitVector._assign: equal width, string literal by length, Null/Full by own type
     bv = idx.mod(BV)
@@ -91,9 +92,9 @@ def rule_front(run):
     asserts = [a for a in walk_local(f.node) if isinstance(a, ast.Assert)]
     widths = [cm.width_guard(a.test, "other") for a in asserts]
     run.ob("==" in widths, "BitVector._assign", file=bv.rel, line=f.node.lineno, detail="BV->BV", expected="w_s == w_t", found=str([w for w in widths if w]))
-    ok = any("isinstance(other, BitVector)" in src(a.test) for a in asserts)
+    ok = any("isinstance(other, BitVector)" in P.T(a.test) for a in asserts)
     run.ob(ok, "BitVector._assign", file=bv.rel, line=f.node.lineno, detail="Bit<->vector", expected="non-vector sources (Bit, bool, int) are rejected", found="ok" if ok else "missing")
-    t = src(f.node)
+    t = P.T(f.node)
     ok = "BitVector[len(other)](other)" in t
     run.ob(ok, "BitVector._assign", file=bv.rel, line=f.node.lineno, detail="str->BV", expected="string literal converted with its own length (then the width guard applies)", found="ok" if ok else "changed")
     run.end()
@@ -139,22 +140,23 @@ def rule_back(run):
         raise AnalysisError(f"only {n_acc} accepted cases enumerated")
     # the ref-spec walk classifies the root's own kind
     f = mod.func("VhdlScope.format_cast")
-    loops = [l for l in walk_local(f.node) if isinstance(l, ast.For) and "_ref_spec" in src(l.iter)]
+    loops = [l for l in walk_local(f.node) if isinstance(l, ast.For) and "_ref_spec" in P.T(l.iter)]
     if not loops:
         raise AnalysisError("anchor vanished: ref-spec walk of format_cast")
     for n in walk_local(loops[0]):
         if isinstance(n, ast.If) and isinstance(n.test, ast.Call) and dotted(n.test.func) == "issubclass":
-            assigned = [a for a in n.body if isinstance(a, ast.Assign) and dotted(a.targets[0]) == "vhdl_target_type"]
+            assigned = [a for a in n.body if isinstance(a, ast.Assign) and dotted(a.targets[0]) == block._cast_names["vtt"]]
             if assigned and isinstance(assigned[0].value, ast.Subscript):
                 var = dotted(n.test.args[0])
                 cls = dotted(n.test.args[1])
                 new = dotted(assigned[0].value.value)
-                ok = var == "vhdl_target_type" and cls == new
+                ok = var == block._cast_names["vtt"] and cls == new
                 run.ob(ok, "VhdlScope.format_cast", file=mod.rel, line=n.lineno, detail=f"refspec-kind[{cls}]",
                        expected=f"issubclass(vhdl_target_type, {cls}) -> {cls}[target width]", found=f"issubclass({var}, {cls}) -> {new}[..]")
     # integer -> vector uses the target width
-    t = src(block)
+    t = P.T(block)
     for tok in ("to_unsigned({value_str}, {target_type.width})", "to_signed({value_str}, {target_type.width})"):
+        tok = tok.replace("target_type", block._cast_names["tt"])
         run.ob(tok in t, "VhdlScope.format_cast", file=mod.rel, line=block.lineno, detail=tok.split("(")[0], expected=tok, found="ok" if tok in t else "changed")
     run.end()
 
@@ -169,7 +171,7 @@ def rule_trial(run):
     idx = run.idx
     vb = idx.mod(VB)
     r = vb.func("_Redirect.__init__")
-    t = src(r.node)
+    t = P.T(r.node)
     ok = "target.type(TypeQualifier.decay(source))" in t and "target.type(source)" in t
     run.ob(ok, "_Redirect.__init__", file=vb.rel, line=r.node.lineno, detail="trial-construct", expected="target.type(<source>) constructed for both qualified and constant sources", found="ok" if ok else "changed")
     # the trial may not be swallowed
@@ -179,11 +181,11 @@ def rule_trial(run):
     ctx = idx.mod(CTX)
     init = ctx.func("Entity.__init__")
     aug = [a for a in ast.walk(init.node) if isinstance(a, ast.AugAssign) and isinstance(a.op, ast.LShift)]
-    ok = len(aug) == 1 and src(aug[0].target) == "info.ports[name]" and dotted(aug[0].value) == "value"
+    ok = len(aug) == 1 and P.T(aug[0].target) == "info.ports[name]" and dotted(aug[0].value) == "value"
     run.ob(ok, "Entity.__init__", file=ctx.rel, line=(aug[0].lineno if aug else init.node.lineno), detail="port<-actual",
            expected="info.ports[name] <<= value (for every port direction)", found="; ".join(src(a) for a in aug) or "missing")
     if aug:
-        guarded = any(isinstance(anc, ast.If) and "is_output" in src(anc.test) for anc in ctx.parents.ancestors(aug[0]))
+        guarded = any(isinstance(anc, ast.If) and "is_output" in P.T(anc.test) for anc in ctx.parents.ancestors(aug[0]))
         run.ob(not guarded, "Entity.__init__", file=ctx.rel, line=aug[0].lineno, detail="direction-independent", expected="same trial for inputs and outputs", found="conditional on port direction" if guarded else "ok")
         tr = [x for x in ctx.parents.ancestors(aug[0]) if isinstance(x, ast.Try)]
         ok = bool(tr) and all(any(isinstance(s, ast.Raise) for s in h.body) for h in tr[0].handlers)
@@ -191,11 +193,11 @@ def rule_trial(run):
     out = idx.mod(OUT)
     e = out.func("Entity.__init__")
     calls = [c for c in ast.walk(e.node) if isinstance(c, ast.Call) and isinstance(c.func, ast.Attribute) and c.func.attr == "_assign_"]
-    ok = len(calls) == 1 and dotted(calls[0].func.value) == "port" and "port_definitions[name]" in src(calls[0].args[0])
+    ok = len(calls) == 1 and dotted(calls[0].func.value) == "port" and "port_definitions[name]" in P.T(calls[0].args[0])
     run.ob(ok, "out.Entity.__init__", file=out.rel, line=(calls[0].lineno if calls else e.node.lineno), detail="port<-actual",
            expected="port._assign_(port_definitions[name], ...) for every port", found="; ".join(src(c)[:60] for c in calls) or "missing")
     if calls:
-        guarded = any(isinstance(anc, ast.If) and "is_output" in src(anc.test) for anc in out.parents.ancestors(calls[0]))
+        guarded = any(isinstance(anc, ast.If) and "is_output" in P.T(anc.test) for anc in out.parents.ancestors(calls[0]))
         run.ob(not guarded, "out.Entity.__init__", file=out.rel, line=calls[0].lineno, detail="direction-independent", expected="same trial for inputs and outputs", found="conditional on port direction" if guarded else "ok")
     run.end()
 
@@ -214,12 +216,17 @@ def rule_join(run):
         raise AnalysisError("_try_join: expected the join loop and the verification loop")
     first = loops[0].body[0]
     var = loops[0].target.id
-    ok = isinstance(first, ast.If) and src(first.test) == f"isinstance({var}, _NullFullType)" and isinstance(first.body[-1], ast.Return) and src(first.body[-1].value) == "None"
+    ok = isinstance(first, ast.If) and P.T(first.test) == f"isinstance({var}, _NullFullType)" and isinstance(first.body[-1], ast.Return) and P.T(first.body[-1].value) == "None"
     run.ob(ok, "_try_join", file=vb.rel, line=loops[0].lineno, detail="null-full-first",
            expected="first statement of the join loop: `if isinstance(option, _NullFullType): return None`", found=src(first).split("\n")[0][:90])
     ver = loops[-1]
     tr = [t for t in ver.body if isinstance(t, ast.Try)]
-    ok = bool(tr) and any(dotted(c.func) == "result_type" for c in calls_in(tr[0].body)) and all(isinstance(h.body[-1], ast.Return) and src(h.body[-1].value) == "None" for h in tr[0].handlers)
+    # the joined type is the variable _try_join finally returns (whatever it is called)
+    last = f.node.body[-1]
+    if not (isinstance(last, ast.Return) and isinstance(last.value, ast.Name)):
+        raise AnalysisError("_try_join: final `return <joined type>` not recognised")
+    joined = last.value.id
+    ok = bool(tr) and any(dotted(c.func) == joined and c.args and dotted(c.args[0]) == ver.target.id for c in calls_in(tr[0].body)) and all(isinstance(h.body[-1], ast.Return) and P.T(h.body[-1].value) == "None" for h in tr[0].handlers)
     run.ob(ok, "_try_join", file=vb.rel, line=ver.lineno, detail="verified-by-construction", expected="result_type(option) for every option, failure => no join", found="ok" if ok else "changed")
     ok = dotted(ver.iter) == "options" and dotted(loops[0].iter) == "options"
     run.ob(ok, "_try_join", file=vb.rel, line=ver.lineno, detail="all-options", expected="both loops run over all options", found="ok" if ok else "changed")
